@@ -131,7 +131,7 @@ def bfs(model, maxdepth, max_transitions, validate='first', on_violation=None):
             st.cap = 'transitions %d' % max_transitions
             break
         table = succ.setdefault(hk, {})
-        for e in model.events:
+        for e in (model.enabled(h) if hasattr(model, 'enabled') else model.events):
             h2 = h + (e,)
             obj, out = run(h2)
             st.transitions += 1
@@ -158,7 +158,7 @@ def bfs(model, maxdepth, max_transitions, validate='first', on_violation=None):
                     validated.add(k)
                     # one step from the pruned history must look exactly like one step from the representative
                     rep = seen[k]
-                    for e2 in model.events:
+                    for e2 in (model.enabled(h2) if hasattr(model, 'enabled') else model.events):
                         o1, out1 = run(h2 + (e2,))
                         o2, out2 = run(rep + (e2,))
                         st.transitions += 2
